@@ -50,6 +50,11 @@ PINNED = {
     U['subject']: (XS + 'string', SUB), U['sproject']: (XS + 'string', SUB), U['tag']: (XS + 'string', SUB),
 }
 CAT_ORDER = [RES, ACT, SUB]
+# compression dictionary of the cases files: long strings of an observation are written as (VD i); Model/Collect11.v
+# lists the same strings in the same order (static obligation dict_in_sync; a mismatch would also show as a disagreement)
+DICT = list(PINNED.keys()) + [XS + 'string', XS + 'integer', XS + 'boolean', XS + 'dayTimeDuration', RES, ACT, SUB,
+                              'sliver', 'switch-p4', 'UNKNOWN-SITE', 'user@example.org']
+DICT_IDX = {x: i for i, x in enumerate(DICT)}
 SPECIAL = ('PortMirror', 'FABNetv4Ext', 'FABNetv6Ext')
 
 
@@ -342,6 +347,8 @@ def py_val(o):
     if isinstance(o, int):
         return 'VZ ' + cZ(o)
     if isinstance(o, str):
+        if o in DICT_IDX:
+            return 'VD ' + cN(DICT_IDX[o])
         return 'VS ' + cstr(o)
     if o is None:
         return 'VNone'
@@ -1089,7 +1096,18 @@ class C11(Check):
     ]
 
     def extra_static(self, ctx):
-        return []
+        """the compression dictionary of the cases files is the same list in the model and in the harness"""
+        try:
+            with open(os.path.join(common.COQ, 'Model', 'Collect11.v')) as f:
+                txt = f.read()
+            blk = txt[txt.index('Definition dict : list str :='):]
+            blk = blk[:blk.index('].')]
+            got = re.findall(r'S"([^"]*)"', blk)
+            ok = got == DICT
+            detail = 'ok' if ok else 'Model/Collect11.v dict (%d entries) differs from harness DICT (%d entries)' % (len(got), len(DICT))
+        except Exception as e:
+            ok, detail = False, repr(e)
+        return [{'name': 'dict_in_sync', 'ok': ok, 'detail': detail}]
 
 
 if __name__ == '__main__':
